@@ -195,7 +195,7 @@ class C09(Check):
         })
 
     def reproduce(self, replay, fresh=False):
-        r = self.run_job({"flavour": replay["flavour"], "kind": replay["kind"], "args": replay["args"], "timeout": 20}, fresh)
+        r = self.run_job({"flavour": replay["flavour"], "kind": replay["kind"], "args": replay["args"], "timeout": replay.get("timeout", 20)}, fresh)
         exp = replay.get("expect")
         if not r["ok"]:
             return crash_key(r), "crash"
